@@ -67,6 +67,40 @@ func (fr *frame) get(key ssa.Value) value {
 	panic(fmt.Sprintf("get: no value for %T: %v in %s", key, key.Name(), fr.fn))
 }
 
+// returnOperand mimics the gc compiler where the spec leaves the order open:
+// in `return v, f()` go/ssa reads the variable v before the call, gc
+// evaluates the calls of the statement first and reads plain variables
+// afterwards (Iterator.Slice relies on it). A result operand that is a load of
+// a local variable cell issued in the returning block before a call of the
+// same block is re-read at the return.
+func (fr *frame) returnOperand(g *G, ret *ssa.Return, r ssa.Value) value {
+	u, ok := r.(*ssa.UnOp)
+	if !ok || u.Op != token.MUL || u.Block() != ret.Block() {
+		return fr.get(r)
+	}
+	switch u.X.(type) {
+	case *ssa.Alloc, *ssa.FreeVar:
+	default:
+		return fr.get(r)
+	}
+	seenLoad, callAfter := false, false
+	for _, in := range ret.Block().Instrs {
+		if in == ssa.Instruction(u) {
+			seenLoad = true
+			continue
+		}
+		if seenLoad {
+			if _, isCall := in.(*ssa.Call); isCall {
+				callAfter = true
+			}
+		}
+	}
+	if !callAfter {
+		return fr.get(r)
+	}
+	return unop(g, u, fr.get(u.X))
+}
+
 func passThrough(p interface{}) bool {
 	switch p.(type) {
 	case killSignal, abortPath:
@@ -158,7 +192,7 @@ func visitInstr(fr *frame, instr ssa.Instruction) continuation {
 		default:
 			var res []value
 			for _, r := range instr.Results {
-				res = append(res, fr.get(r))
+				res = append(res, fr.returnOperand(g, instr, r))
 			}
 			fr.result = tuple(res)
 		}
@@ -171,6 +205,15 @@ func visitInstr(fr *frame, instr ssa.Instruction) continuation {
 	case *ssa.Send:
 		g.chanSend(fr.get(instr.Chan).(*Chan), copyVal(fr.get(instr.X)))
 	case *ssa.Store:
+		// `return out, f()` with a named result out is lowered by go/ssa to
+		// t1 = *out; ...f()...; *out = t1: an early read written back after
+		// the call. gc reads the variable after the calls of the statement,
+		// which makes the write-back a no-op (see returnOperand).
+		if u, ok := instr.Val.(*ssa.UnOp); ok && u.Op == token.MUL && u.X == instr.Addr && u.Block() == instr.Block() {
+			if _, isAlloc := u.X.(*ssa.Alloc); isAlloc {
+				break
+			}
+		}
 		g.storePtr(derefType(instr.Addr.Type()), fr.get(instr.Addr), fr.get(instr.Val))
 	case *ssa.If:
 		succ := 1
@@ -315,7 +358,7 @@ func visitInstr(fr *frame, instr ssa.Instruction) continuation {
 			var ok bool
 			if x != nil {
 				g.mapAccess(x, false)
-				v, ok = x.lookup(g.concKey(fr.get(instr.Index)))
+				v, ok = x.lookup(g.mapKey(x, fr.get(instr.Index)))
 			}
 			if !ok {
 				v = zero(instr.X.Type().Underlying().(*types.Map).Elem())
@@ -341,7 +384,7 @@ func visitInstr(fr *frame, instr ssa.Instruction) continuation {
 			panic(targetPanic{v: iface{t: g.ex.prog.runtimeErrorString, v: "assignment to entry in nil map"}, msg: "assignment to entry in nil map"})
 		}
 		g.mapAccess(m, true)
-		m.insert(g.concKey(fr.get(instr.Key)), copyVal(fr.get(instr.Value)))
+		m.insert(g.mapKey(m, fr.get(instr.Key)), copyVal(fr.get(instr.Value)))
 	case *ssa.TypeAssert:
 		fr.env[instr] = typeAssert(g, instr, fr.get(instr.X).(iface))
 	case *ssa.MakeClosure:
@@ -358,6 +401,48 @@ func visitInstr(fr *frame, instr ssa.Instruction) continuation {
 		panic(fmt.Sprintf("unexpected instruction: %T", instr))
 	}
 	return kNext
+}
+
+// mapKey resolves a (possibly symbolic) scalar key against the keys already
+// in m: one decision point "k == k_i" per live entry whose equality with k is
+// not decided by the path condition; the entry's own key is returned on a
+// match, k itself (a key distinct from every present one on this path)
+// otherwise. Composite keys with symbolic parts are made concrete instead.
+func (g *G) mapKey(m *omap, k value) value {
+	ks, isSym := k.(Sym)
+	if m == nil || (!isSym && !m.symKeys) {
+		if isSym {
+			return k
+		}
+		return g.concKey(k)
+	}
+	if !isSym && hasSym(k) {
+		return g.concKey(k)
+	}
+	_ = ks
+	for i := range m.entries {
+		e := &m.entries[i]
+		if e.deleted {
+			continue
+		}
+		if _, esym := e.k.(Sym); !esym && !isSym {
+			if equals(m.keyType, e.k, k) {
+				return e.k
+			}
+			continue
+		}
+		t := eqTermV(g, m.keyType, e.k, k)
+		if t.IsTrue() {
+			return e.k
+		}
+		if t.IsFalse() {
+			continue
+		}
+		if g.ex.Branch(g, t) {
+			return e.k
+		}
+	}
+	return k
 }
 
 // concKey makes a map key concrete (scalar keys, or structs of scalars).
